@@ -337,11 +337,19 @@ def full_transfer_rule(P, rep, rid='R-C08-7'):
     def succ_true(t): return t.ops[2][1]
     def succ_false(t): return t.ops[1][1]
     for fn, prim, kind in (('handle_write', 'pwrite', 'w'), ('parity_write', 'pwrite', 'w'), ('sflush', 'write', 'w'), ('handle_read', 'pread', 'r'), ('parity_read', 'pread', 'r')):
-        f = P.fn(fn)
+        root = P.fn(fn)
+        from .C05 import locate_in_helpers
+        f = locate_in_helpers(P, root, lambda g_: any(True for _ in g_.calls(prim))) or root
         rep.analysed(f)
         cs = list(f.calls(prim))
         if len(cs) != 1:
             raise AnalysisBroken('%s: expected one %s call, found %d' % (fn, prim, len(cs)))
+        if f is not root:
+            # the transfer loop was split out into a static helper: its failure must be tested where it is called
+            hc = [x for x in root.calls() if x.callee_full == f.name]
+            tested = bool(hc) and all(any(u.op in ('icmp', 'store') for u in root.users.get(x.id, ())) for x in hc)
+            rep.check(tested, rid, '%s: the result of the helper %s is used' % (fn, base(f.name)), (hc[0] if hc else root.blocks[0][0]).loc(), 'helper result kept / tested' if tested else 'the helper that performs the transfer reports failures, its caller drops them', function=fn, construct='helper result')
+            fn = base(f.name)
         c = cs[0]
         var = local_of(f, c)
         if var is None:
@@ -388,10 +396,24 @@ def full_transfer_rule(P, rep, rid='R-C08-7'):
                     t = f.term(b)
                     if t.op == 'br' and len(t.ops) == 3 and h in (succ_true(t), succ_false(t)) or (t.op == 'br' and len(t.ops) == 3 and any(s_ not in f.loops[h] for s_ in (succ_true(t), succ_false(t)))):
                         ci = f.inst_of(t.ops[0])
-                        if ci is not None and ci.op == 'icmp' and ci.pred in ('ult', 'slt') and f.expr(ci.ops[0]) == cnt:
+                        if ci is None or ci.op != 'icmp':
+                            continue
+                        # `count < wanted` in any spelling: wanted > count, !(count >= wanted) with the branches swapped
+                        a_, b_ = f.expr(ci.ops[0]), f.expr(ci.ops[1])
+                        pred = ci.pred
+                        if b_ == cnt and a_ != cnt:
+                            a_, b_ = b_, a_
+                            pred = {'ult': 'ugt', 'ugt': 'ult', 'slt': 'sgt', 'sgt': 'slt', 'ule': 'uge', 'uge': 'ule', 'sle': 'sge', 'sge': 'sle'}.get(pred, pred)
+                        if a_ != cnt:
+                            continue
+                        if pred in ('ult', 'slt'):
                             cont = succ_true(t)
-                            okl = cont in f.loops[h]
-                            det = 'loop continues while %s < %s' % (cnt, f.expr(ci.ops[1]))
+                        elif pred in ('uge', 'sge'):
+                            cont = succ_false(t)
+                        else:
+                            continue
+                        okl = cont in f.loops[h]
+                        det = 'loop continues while %s < %s' % (cnt, b_)
             rep.check(okl, rid, '%s: reads are accumulated until the wanted size' % fn, c.loc(), det, function=fn, construct='%s loop' % prim)
 
 
@@ -723,7 +745,7 @@ def writer_error_scan_rule(P, rep, rid):
     import re
     f = P.fn('state_sync_process')
     rep.analysed(f)
-    rep.rule(rid, 'state_sync_process: the loop over the writer error array visits all its entries (bound = length of the array)', 1)
+    rep.rule(rid, 'state_sync_process: the loop over the writer error array visits all its entries (bound = length of the array) and tests nothing but the entry and the counter on the way to the error counters', 2)
     wn = [c for c in f.calls() if c.callee == 'io_write_next' or (c.callee is None and c.target and f.expr(c.target) == 'io_write_next')]
     arr = [a for a in f.all_insts() if a.op == 'alloca' and a.id not in f.arg_allocas() and any(any(f.strip(o) == ['i', a.id] or (f.inst_of(o) is not None and f.inst_of(o).op == 'getelementptr' and f.strip(f.inst_of(o).ops[0]) == ['i', a.id]) for o in c.ops) for c in wn)]
     arr = [a for a in arr if re.match(r'\[(\d+) x i32\]', a.ty or '')]
@@ -749,6 +771,29 @@ def writer_error_scan_rule(P, rep, rid):
         stay_true = t.ops[2][1] in body or t.ops[2][1] == h
         visited = [v for v in range(0, n + 3) if _icmp(ci.pred, v, k) == stay_true]
         rep.check(visited == list(range(n)), rid, 'bound of the loop over the writer errors', t.loc(), 'visits entries %s of %d' % (visited, n), function='state_sync_process', construct='writer error loop bound')
+        # what the writers report belongs to EARLIER stripes (the queue is io_max deep): whether the present stripe writes parity or
+        # not, has errors or not, says nothing about them.  Inside the loop the way to the error counters may depend only on the
+        # array entry and on the loop counter
+        li = f.inst_of(ci.ops[0])
+        cnt = f.insts[f.strip(li.ops[0])[1]] if li is not None and li.op == 'load' and f.strip(li.ops[0])[0] == 'i' else None
+        names = [x for x in ((arr[0].var or ''), (cnt.var if cnt is not None else '') or '') if x]
+        foreign = []
+        for b in body:
+            if b == h:
+                continue
+            tb = f.term(b)
+            if tb.op != 'br' or len(tb.ops) != 3:
+                continue
+            e = f.xexpr(tb.ops[0])
+            if any(re.search(r'\b%s\b' % re.escape(nm), e) for nm in names):
+                continue
+            # does it decide whether a counter of the loop is reached?
+            incs = [i for i in f.all_insts() if i.block in body and i.op == 'store' and f.inst_of(i.ops[0]) is not None and f.inst_of(i.ops[0]).op == 'add' and f.expr(i.ops[1]).lstrip('&') in ('io_error', 'error', 'silent_error')]
+            if any(sum(1 for s_ in tb.succ if f.edge_dominates(tb, s_, i)) == 1 for i in incs):
+                foreign.append((tb, e))
+        rep.check(not foreign, rid, 'the writer errors are examined whatever the present stripe does', (foreign[0][0] if foreign else t).loc(),
+                  'inside the loop only the array entry and the counter are tested' if not foreign else 'the errors reported by the writers are looked at only when %s: they belong to stripes queued earlier, and when they surface at a stripe for which the condition is false they are consumed by io_write_next and dropped -- sync ends "Everything OK" after a failed parity write' % foreign[0][1][:80],
+                  function='state_sync_process', construct='writer errors examined conditionally')
     if not checked:
         raise AnalysisBroken('state_sync_process: loop over the writer error array not found')
 
